@@ -60,6 +60,10 @@ def gen(seed: int, tier: str) -> dict[str, Any]:
                            "con_d": rng.choice([0.0, 0.003, 0.003, 0.5, 2.9, 3.5])}
             elif r < 0.7:
                 op["b"] = {"lat": 0.002, "out": "comm_error"}
+                if rng.random() < 0.5:
+                    # the send fails because the connection drops while the frame is with the interface - and the
+                    # connection is back a moment later
+                    op["b"]["flap"] = {"down": 0.001, "up": rng.choice([0.0005, 0.005, 0.03])}
             elif r < 0.8:
                 op["b"] = {"lat": 0.002, "out": "ok", "con": "never"}
             elif r < 0.88:
@@ -115,7 +119,16 @@ def run(plan: dict[str, Any]) -> dict[str, Any]:
             return int.from_bytes(c["tpdu"][2:4], "big")
         return None
 
-    stub.pick = lambda raw, i: behaviours.get(pid_of(raw))
+    def pick(raw, i):
+        b = behaviours.get(pid_of(raw))
+        if b and b.get("flap"):
+            from xknx.core import XknxConnectionState as _S
+            cm = xknx.connection_manager
+            loop.after(b["flap"]["down"], lambda: cm.connection_state_changed(_S.DISCONNECTED), label="op")
+            loop.after(b["flap"]["down"] + b["flap"]["up"], lambda: cm.connection_state_changed(_S.CONNECTED), label="op")
+            R.extra_faults["connection_flap_during_send"] += 1
+        return b
+    stub.pick = pick
     seen_cb: list[tuple[int, str]] = []
     seen_dev: list[tuple[int, str]] = []
     info: dict[str, Any] = {"join_ret": None, "stop_ret": None, "stop_call": None, "unfinished": None, "puts": []}
